@@ -13,10 +13,13 @@ type Choices struct {
 	Clamped int // replayed values that had to be reduced mod n
 }
 
+//go:norace
 func NewChoices(seed uint64) *Choices { return &Choices{state: seed} }
 
+//go:norace
 func NewReplay(list []uint32) *Choices { return &Choices{replay: list, Replay: true} }
 
+//go:norace
 func (c *Choices) next() uint64 {
 	c.state += 0x9E3779B97F4A7C15
 	z := c.state
@@ -26,12 +29,15 @@ func (c *Choices) next() uint64 {
 }
 
 // Mix derives an independent seed.
+//
+//go:norace
 func Mix(a, b uint64) uint64 {
 	c := Choices{state: a ^ (b * 0xD6E8FEB86659FD93)}
 	c.next()
 	return c.next()
 }
 
+//go:norace
 func (c *Choices) draw(n int, gen func() int) int {
 	if n <= 1 {
 		return 0
@@ -54,11 +60,15 @@ func (c *Choices) draw(n int, gen func() int) int {
 }
 
 // Intn returns a uniform value in [0,n).
+//
+//go:norace
 func (c *Choices) Intn(n int) int {
 	return c.draw(n, func() int { return int(c.next() % uint64(n)) })
 }
 
 // Biased returns 0 with probability pZero, otherwise a uniform value in [1,n).
+//
+//go:norace
 func (c *Choices) Biased(n int, pZero float64) int {
 	return c.draw(n, func() int {
 		if float64(c.next()>>11)/float64(1<<53) < pZero {
@@ -69,9 +79,13 @@ func (c *Choices) Biased(n int, pZero float64) int {
 }
 
 // Bool returns true with probability p (recorded as 1).
+//
+//go:norace
 func (c *Choices) Bool(p float64) bool { return c.Biased(2, 1-p) == 1 }
 
 // Range returns a uniform value in [lo,hi] (inclusive); lo is the boring value.
+//
+//go:norace
 func (c *Choices) Range(lo, hi int) int {
 	if hi <= lo {
 		return lo
@@ -80,7 +94,11 @@ func (c *Choices) Range(lo, hi int) int {
 }
 
 // Pick returns an index into a list of n options.
+//
+//go:norace
 func (c *Choices) Pick(n int) int { return c.Intn(n) }
 
 // Used reports how many draws were consumed.
+//
+//go:norace
 func (c *Choices) Used() int { return len(c.Rec) }
